@@ -21,6 +21,7 @@ impl StreamId { pub fn as_bytes(&self) -> &[u8] { std::slice::from_ref(&self.0) 
 /// std String / Vec<u8> payloads: opaque tokens (their bytes are never inspected by the code under contract)
 #[derive(Clone, Copy, Debug, PartialEq, Eq)]
 pub struct String(pub u8);
+impl String { pub fn to_string(&self) -> String { *self } }
 #[derive(Clone, Copy, Debug, PartialEq, Eq)]
 pub struct Bytes(pub u8);
 pub type PartitionId = u16;
@@ -59,7 +60,7 @@ impl BytesFrame {
 pub fn verif_any_u64() -> u64 { #[cfg(kani)] { kani::any() } #[cfg(not(kani))] { 0 } }
 pub enum ErrorCode { InvalidArg }
 pub struct CodedError(pub u8);
-impl ErrorCode { pub fn with_message(self, _m: &'static str) -> CodedError { CodedError(1) } }
+impl ErrorCode { pub fn with_message(self, _m: &'static str) -> String { String(1) } }
 impl CodedError { pub fn to_string(&self) -> String { String(0) } }
 pub trait MapRedisErr<T> { fn map_redis_err(self) -> Result<T, String>; }
 impl<T> MapRedisErr<T> for Result<T, ()> { fn map_redis_err(self) -> Result<T, String> { self.map_err(|_| String(0)) } }
@@ -87,10 +88,38 @@ pub struct AppendResult { pub stream_versions: StreamVersions, pub first_partiti
 pub static mut EXECUTED: Option<Transaction> = None;
 pub static mut EXECUTED_N: u32 = 0;
 pub struct ClusterRef { pub fail: bool, pub seq: u64, pub ver: u64 }
-impl ClusterRef {
-    pub fn ask(&self, m: ExecuteTransaction) -> Result<AppendResult, ()> {
-        unsafe { EXECUTED = Some(m.0); EXECUTED_N += 1; }
-        if self.fail { Err(()) } else { Ok(AppendResult { stream_versions: StreamVersions { one: Some((m.0.event.stream_id, self.ver)) }, first_partition_sequence: self.seq, last_partition_sequence: self.seq }) }
+/// one `ask` per message type the handlers send; each records the message and answers with the harness-chosen reply
+pub trait Ask { type Reply; fn deliver(self, c: &ClusterRef) -> Result<Self::Reply, ()>; }
+impl ClusterRef { pub fn ask<M: Ask>(&self, m: M) -> Result<M::Reply, ()> { m.deliver(self) } }
+impl Ask for ExecuteTransaction {
+    type Reply = AppendResult;
+    fn deliver(self, c: &ClusterRef) -> Result<AppendResult, ()> {
+        unsafe { EXECUTED = Some(self.0); EXECUTED_N += 1; }
+        if c.fail { Err(()) } else { Ok(AppendResult { stream_versions: StreamVersions { one: Some((self.0.event.stream_id, c.ver)) }, first_partition_sequence: c.seq, last_partition_sequence: c.seq }) }
+    }
+}
+/// (stream or 255, partition, start, end, count) of the read the cluster was asked for, and how often
+pub static mut ASKED: Option<(u8, u16, u64, Option<u64>, u64)> = None;
+pub static mut ASKED_N: u32 = 0;
+/// the cluster's reply to a read: `seq` events (tokens) and the has_more flag `fail == false && ver odd`
+fn reply_events(c: &ClusterRef) -> vecmodel::IdVec<EventRecord> {
+    let mut v = vecmodel::IdVec::new();
+    let mut i = 0;
+    while i < c.seq % 3 { v.push(EventRecord { offset: i, event_id: Uuid { hash: 1, tag: i as u8 }, partition_key: Uuid { hash: 1, tag: 0 }, partition_id: 1, transaction_id: Uuid { hash: 1, tag: 9 }, partition_sequence: i, stream_version: i, timestamp: 0, confirmation_count: 1, stream_id: StreamId(1), event_name: String(0), metadata: Bytes(0), payload: Bytes(0), size: 0 }); i += 1; }
+    v
+}
+impl Ask for ReadStream {
+    type Reply = StreamEvents;
+    fn deliver(self, c: &ClusterRef) -> Result<StreamEvents, ()> {
+        unsafe { ASKED = Some((self.stream_id.0, self.partition_id, self.start_version, self.end_version, self.count)); ASKED_N += 1; }
+        if c.fail { Err(()) } else { Ok(StreamEvents { events: reply_events(c), has_more: c.ver & 1 == 1 }) }
+    }
+}
+impl Ask for ReadPartition {
+    type Reply = PartitionEvents;
+    fn deliver(self, c: &ClusterRef) -> Result<PartitionEvents, ()> {
+        unsafe { ASKED = Some((255, self.partition_id, self.start_sequence, self.end_sequence, self.count)); ASKED_N += 1; }
+        if c.fail { Err(()) } else { Ok(PartitionEvents { events: reply_events(c), has_more: c.ver & 1 == 1 }) }
     }
 }
 pub struct Conn { pub num_partitions: u16, pub strict_versioning: bool, pub cluster_ref: ClusterRef }
@@ -107,6 +136,7 @@ pub trait VecOf { type V; }
 impl VecOf for u8 { type V = Bytes; }
 impl VecOf for u16 { type V = vecmodel::IdVec<u16>; }
 impl VecOf for PartitionSelector { type V = vecmodel::IdVec<PartitionSelector>; }
+impl VecOf for EventRecord { type V = vecmodel::IdVec<EventRecord>; }
 macro_rules! vec { () => { vecmodel::IdVec::new() }; ($e:expr) => {{ let mut v = vecmodel::IdVec::new(); v.push($e); v }}; }
 
 //@item EventRecord
@@ -120,6 +150,21 @@ macro_rules! vec { () => { vecmodel::IdVec::new() }; ($e:expr) => {{ let mut v =
 //@item EAppendResp::from
 impl EAppend {
 //@item eappend_slice
+}
+//@item RangeValue
+//@item ReadStream
+//@item ReadPartition
+//@item StreamEvents
+//@item PartitionEvents
+//@item EScan
+//@item EScanResp
+//@item EPScan
+//@item EPScanResp
+impl EScan {
+//@item escan_slice
+}
+impl EPScan {
+//@item epscan_slice
 }
 
 #[cfg(kani)]
@@ -250,5 +295,62 @@ mod verif {
         let mut l = vecmodel::IdVec::new(); l.push(PartitionSelector::ById(x)); l.push(PartitionSelector::ById(y));
         let e = PartitionRange::List(l).expand(n);
         assert!(e.n == 2 && e.slots[0] == Some(x) && e.slots[1] == Some(y), "a list keeps its order and values");
+    }
+
+    fn any_range() -> RangeValue { let k: u8 = kani::any(); if k % 3 == 0 { RangeValue::Start } else if k % 3 == 1 { RangeValue::End } else { RangeValue::Value(kani::any()) } }
+
+    #[kani::proof]
+    #[kani::unwind(5)]
+    fn escan_request() {
+        let req = EScan { stream_id: StreamId(kani::any()), start_version: any_range(), end_version: any_range(), partition_key: if kani::any() { Some(any_uuid()) } else { None }, count: kani::any() };
+        let mut conn = Conn { num_partitions: kani::any(), strict_versioning: false, cluster_ref: ClusterRef { fail: kani::any(), seq: kani::any(), ver: kani::any() } };
+        kani::assume(conn.num_partitions >= 1);
+        unsafe { ASKED = None; ASKED_N = 0; }
+        let (sid, start, end, key, count, parts) = (req.stream_id, req.start_version.clone(), req.end_version.clone(), req.partition_key, req.count, conn.num_partitions);
+        let (fail, n_events, more) = (conn.cluster_ref.fail, conn.cluster_ref.seq % 3, conn.cluster_ref.ver & 1 == 1);
+        kani::cover!(count == Some(0) && !fail && more, "reachable: COUNT 0 on a stream that has events");
+        let r = req.escan_slice(&mut conn);
+        if matches!(start, RangeValue::End) || matches!(end, RangeValue::Start) {
+            assert!(r.is_err() && unsafe { ASKED_N } == 0, "`+` as start / `-` as end is an error; the cluster is not asked");
+            return;
+        }
+        assert!(unsafe { ASKED_N } == 1, "the cluster is asked exactly once");
+        let (a_sid, a_pid, a_start, a_end, a_count) = unsafe { ASKED }.unwrap();
+        assert!(a_sid == sid.0 && a_start == (match start { RangeValue::Value(n) => n, _ => 0 }) && a_end == (match end { RangeValue::Value(n) => Some(n), _ => None }), "the range of the command, unchanged");
+        assert!(a_count == count.unwrap_or(100), "the count of the command (100 when absent), unchanged");
+        if let Some(k) = key { assert!(a_pid == uuid_to_partition_hash(k) % parts, "the partition of the given key"); }
+        match r {
+            Err(_) => assert!(fail),
+            Ok(None) => assert!(false, "ESCAN always answers"),
+            Ok(Some(resp)) => { assert!(!fail && resp.has_more == more && resp.events.n == n_events as usize, "the response carries the cluster's has_more flag and events unchanged: has_more never hides existing events"); }
+        }
+    }
+
+    #[kani::proof]
+    #[kani::unwind(5)]
+    fn epscan_request() {
+        let by_id: bool = kani::any();
+        let (pid, key): (u16, Uuid) = (kani::any(), any_uuid());
+        let req = EPScan { partition: if by_id { PartitionSelector::ById(pid) } else { PartitionSelector::ByKey(key) }, start_sequence: any_range(), end_sequence: any_range(), count: kani::any() };
+        let mut conn = Conn { num_partitions: kani::any(), strict_versioning: false, cluster_ref: ClusterRef { fail: kani::any(), seq: kani::any(), ver: kani::any() } };
+        kani::assume(conn.num_partitions >= 1);
+        unsafe { ASKED = None; ASKED_N = 0; }
+        let (start, end, count, parts) = (req.start_sequence.clone(), req.end_sequence.clone(), req.count, conn.num_partitions);
+        let (fail, n_events, more) = (conn.cluster_ref.fail, conn.cluster_ref.seq % 3, conn.cluster_ref.ver & 1 == 1);
+        kani::cover!(count == Some(0) && !fail && more, "reachable: COUNT 0 on a partition that has events");
+        let r = req.epscan_slice(&mut conn);
+        if matches!(start, RangeValue::End) || matches!(end, RangeValue::Start) {
+            assert!(r.is_err() && unsafe { ASKED_N } == 0, "`+` as start / `-` as end is an error; the cluster is not asked");
+            return;
+        }
+        assert!(unsafe { ASKED_N } == 1, "the cluster is asked exactly once");
+        let (_, a_pid, a_start, a_end, a_count) = unsafe { ASKED }.unwrap();
+        assert!(a_pid == if by_id { pid } else { uuid_to_partition_hash(key) % parts }, "the partition the command names: a numeric id unchanged, a key by its hash");
+        assert!(a_start == (match start { RangeValue::Value(n) => n, _ => 0 }) && a_end == (match end { RangeValue::Value(n) => Some(n), _ => None }) && a_count == count.unwrap_or(100), "range and count of the command, unchanged");
+        match r {
+            Err(_) => assert!(fail),
+            Ok(None) => assert!(false, "EPSCAN always answers"),
+            Ok(Some(resp)) => { assert!(!fail && resp.has_more == more && resp.events.n == n_events as usize, "the response carries the cluster's has_more flag and events unchanged"); }
+        }
     }
 }
